@@ -362,7 +362,34 @@ class Check:
                 self.proof_failure = "theorem %s depends on unexpected assumptions %s" % (t, ax)
         for name in extra_obligations:
             self.obligations.append((name, True, []))
+        if allok and self.tier == "thorough":
+            allok = self.coqchk(module, allowed)
         return allok
+
+    def coqchk(self, module, allowed=()):
+        """thorough tier: re-check the compiled property file and everything it depends on
+        with the independent checker and compare the axioms it reports."""
+        t0 = time.time()
+        rc, out = sh(["coqchk", "-o", "-silent", "-Q", "theories", "NV", "NV." + module],
+                     cwd=COQ, timeout=3000)
+        ax = []
+        m = re.search(r"\* Axioms:(.*?)\n\s*\n\* Constants/Inductives relying on type-in-type:(.*?)\n\s*\n"
+                      r"\* Constants/Inductives relying on unsafe \(co\)fixpoints:(.*?)\n\s*\n"
+                      r"\* Inductives whose positivity is assumed:(.*?)\n", out, re.S)
+        ok = rc == 0 and m is not None
+        if ok:
+            ax = [a.strip() for a in m.group(1).split("\n") if a.strip() and a.strip() != "<none>"]
+            unsafe = [g.strip() for g in (m.group(2), m.group(3), m.group(4)) if g.strip() != "<none>"]
+            short = lambda a: ".".join(a.split(".")[-2:])
+            bad = [a for a in ax if not any(a.endswith(x) or short(a) == short(x) for x in allowed)]
+            if unsafe or bad:
+                ok = False
+                self.proof_failure = "coqchk: unexpected axioms %s / unsafe %s" % (bad, unsafe)
+        else:
+            self.proof_failure = "coqchk failed: " + out[-800:]
+        self.obligations.append(("coqchk " + module, ok, ax))
+        self.notes.append("coqchk -o %s: %s in %.0fs, axioms: %s" % (module, "ok" if ok else "FAILED", time.time() - t0, ax or "<none>"))
+        return ok
 
     # ---- reporting
     def replay_path(self, n=None):
